@@ -983,7 +983,9 @@ pub fn random_plan(rng: &mut Rng, max_size: u32) -> C11Plan {
     if mode == Mode::Paced {
         let len: usize = 3 + p.requests.iter().map(|r| request_frame(r).len()).sum::<usize>() + 6;
         p.paced_cuts = crate::c05::random_paced_cuts(rng, len);
-        p.paced_gaps_ms = crate::c05::random_paced_gaps(rng);
+        // short stalls only: the upload's own judge has no second reading for a client that gives a
+        // stalled exchange up (long stalls are exercised on the sequences in C05/C06 and on the reader in C04)
+        p.paced_gaps_ms = crate::c05::random_paced_gaps(rng).into_iter().map(|g| g.min(900)).collect();
     }
     p
 }
